@@ -227,6 +227,10 @@ def _gearbox(ctx):
     fx = fx_of(ctx, STREAM, "Gearbox")
     fail_closed(ctx, fx, "Gearbox")
     s_range(ctx, "S11", fx, "Gearbox", "level")
+    ctx.rule("S15", "packet.Arbiter: the grant follows the masters' packet status combinationally -- request[i] is a comb copy of "
+                    "Status(masters[i]).ongoing; a registered request lets the grant move under a beat that is being offered", min_sites=2)
+    from .c16 import arbiter_requests
+    arbiter_requests(ctx, "S15")
     # position counters wrap explicitly at their last value and the declared width holds that value for every ratio: a counter that
     # cannot reach ratio - 1 never completes a word -- the sink is never accepted again (livelock), whatever producer and consumer do
     for cls_, reg_ in (("_UpConverter", "demux"), ("_DownConverter", "mux"), ("Pack", "demux"), ("Unpack", "mux"),
